@@ -55,6 +55,7 @@ where
             "C14.PIPE-RELEASE: when the registration is refused for a forbidden signal the descriptor handed over is closed exactly once");
         kani::cover!(true, "C14.cover: forbidden signal on the pipe front-end");
         kani::assume(false);
+        unreachable!();
     }
     action();
     DELIVERY_END[0] = lm::tlen();
